@@ -48,7 +48,9 @@ COLS = [('slice', [1, None]), ('list', [2, 0]), ('perm', [1, 2, 0]),
         # width-relative forms: they mean something else once an earlier selection has narrowed the recording
         ('slice', [-2, None]), ('slice', [None, None, -1]), ('list', [-1, 0]),
         # boolean masks (full width; width 2, valid only after a narrowing selection), runs of negative indices
-        ('mask', [False, True, True, False, True]), ('mask', [False, True]), ('list', [-2, -1])]
+        ('mask', [False, True, True, False, True]), ('mask', [False, True]), ('list', [-2, -1]),
+        # a single channel as an integer (the result loses its channel axis), an empty selection
+        ('int', 2), ('int', -1), ('list', [])]
 
 
 def alphabet():
@@ -74,6 +76,8 @@ def arg_value(arg):
             return np.array(arg['v'])
         if arg['c'] == 'mask':
             return np.array(arg['v'], dtype=bool)
+        if arg['c'] == 'int':
+            return int(arg['v'])
         return list(arg['v'])
     return arg
 
@@ -189,8 +193,16 @@ def run_shard(desc, ctx):
             if idx % ns == sh:
                 run_case({'kind': 'program', 'backend': 'array', 'dtype': dt, 'program': prog,
                           'rows': 'std'}, ctx)
-    # column-heavy programs of depth 4: selection, scalar operator, two selections in a row (all forms)
+    # every one-operator program, and every two-operator program starting with a channel selection, on the other backends
+    # (multi-file flat, npy, compressed) as well
     colops = [a for a in alpha if a[0] == 'cols']
+    for be in ('flat', 'npy', 'cbin'):
+        for dt in ('int16', 'float32'):
+            for prog in [[a] for a in alpha] + ([[c, a] for c in colops for a in alpha] if be == 'flat' else []):
+                idx += 1
+                if idx % ns == sh:
+                    run_case({'kind': 'program', 'backend': be, 'dtype': dt, 'program': prog, 'rows': 'std'}, ctx)
+    # column-heavy programs of depth 4: selection, scalar operator, two selections in a row (all forms)
     for x in colops:
         for mid in (['mul', 2], ['add', 0.5], ['neg', None]):
             for y in colops:
@@ -246,20 +258,17 @@ def eval_chain(x, prog):
 
 
 def valid_cols(prog):
-    """Column selections must stay inside the current width (the harness only builds valid ones)."""
-    w = NC
+    """Column selections must stay inside the current width (the harness only builds valid ones); judged by applying
+    them to a dummy row. An integer selection drops the channel axis: no further selection is valid after it."""
+    x = np.zeros((1, NC))
     for op, arg in prog:
         if op == 'cols':
-            a = arg_value(arg)
-            if isinstance(a, slice):
-                w2 = len(range(*a.indices(w)))
-            else:
-                if max(a) >= w or min(a) < -w:
-                    return False
-                w2 = len(a)
-            if w2 == 0:
+            if x.ndim != 2:
                 return False
-            w = w2
+            try:
+                x = x[:, arg_value(arg)]
+            except (IndexError, TypeError, ValueError):
+                return False
     return True
 
 
@@ -314,7 +323,7 @@ def _program(case, ctx):
         ctx.count(1, key=hkey(pkey, repr(rows)), nontrivial=nontriv,
                   cell=(case['backend'], case['dtype'], 'depth%d' % min(len(prog), 4)))
         rr = call(lambda: lazy.value[rows])
-        exp = E[rows] if not isinstance(rows, int) else E[rows][None, :]
+        exp = E[rows] if not isinstance(rows, int) else E[[rows]]        # an integer row keeps a leading axis of length 1
         sub = dict(case, rows=[rows])
         if not rr.ok:
             ctx.violation('index_raised', sub, 'expr(reader)[%r] raised %r' % (rows, rr.exc),
